@@ -68,10 +68,18 @@ CHECKS = {
             "reference HD61202-pair monitor after every window access on the real Python HD61202Controller and Rust LcdController, cross-model comparison, complete VRAM-bit -> pixel ownership enumeration, per-write display diff",
             "Held (modulo listed findings) on seeded histories over all 16 low-nibble decodings and mirrors, on all sequences of <= 2/3 operations over a 24-op alphabet, and on the complete 8192-bit flip map of both models (Rust under 5 start lines): state, read values, one-owner-per-pixel, one column per data write.",
             "Reference is the protocol text of the property; display composition is compared per model only.", "DESIGN.md 3/C15"),
+    "C16": ("fault_enumeration",
+            "record-by-record comparison of the observed future of the original machine and of a freshly constructed machine that loaded the snapshot, with the snapshot taken at EVERY step boundary of seeded runs of the real PCE500Emulator and CoreRuntime; metamorphic no-perturbation run; cross-model load of every 3rd snapshot; registers.bin decoded against live registers",
+            "Held (modulo listed findings) for every step boundary as snapshot point of 64 (quick) / 640 (thorough) seeded runs per model (running, halted, powered off, inside handlers, pending/masked requests, keys held, FIFO non-empty, mid-subroutine) x K=30/45 further steps and inputs: registers, all IMEM bytes, RAM, stack, LCD registers+VRAM, KIL/FIFO, ISR/IMR, power state identical at every step; saving never perturbed the original; each model loaded the other's files into the same observable state.",
+            "Continuations are bounded (K steps); bookkeeping-only fields (counters, last source) are counted, not judged.", "DESIGN.md 3/C16"),
     "C17": ("other",
             "complete comparison of live tables dumped from the running Python modules and the real Rust crate + behavioural recovery of private tables by executed probes on both cores",
             "All 256 opcode entries x 4 fields, register width/layout copies, ~100 constants, 87 key codes, 15 PRE bytes, 58 single-operand opcodes x 2 prefixes, both vectors, both Binary Ninja views: compared completely (finite space).",
             "Two small projections normalise operand shapes and width units.", "DESIGN.md 3/C17"),
+    "C18": ("exploration",
+            "online checker over the resumption log (current_cycle() at every resumption), the DriverRunResult sequence and clock() of the real AsyncDriver driven with scripted tasks under several budget partitions (wake-time arithmetic from the scripts, monotone time, budget respect, events exactly once in emission order, metamorphic partition invariance); differential AsyncRuntimeRunner vs CoreRuntime::step on full machine observations",
+            "Held on all single tasks of <= 3 steps over {sleep 0,1,2,3,7, bare Pending} x {emit, no emit}, all pairs (quick) and triples (thorough) of tasks of <= 2 steps over the reduced alphabet, under 4-7 budget partitions each, on seeded sets of 1-4 tasks with up to 6 steps, durations up to 2^33 and start clocks up to 2^40, and on 480 (quick) / 8000 (thorough) generated programs and interrupt/timer/keyboard ROM templates x slice sizes {1,2,3,10,10000} x split instruction counts.",
+            "Same-cycle order is compared across partitions, not against a model; tasks emit at most one event per resumption as the statement allows.", "DESIGN.md 3/C18"),
 }
 
 NOT_APPLICABLE = []  # filled automatically for properties without a check (reason below)
